@@ -14,9 +14,14 @@
 //!     exactly the rows below the split point, under the second the rows at or
 //!     above it, the old shard holds every written row.
 //!  E  end to end: the same history on a pipeline with the split planted and on
-//!     one without, `QueryNode::query` (raw selects, projections, COUNT, SUM,
-//!     GROUP BY) on both; model vs implementation, and the oracle "answer during
-//!     the split == answer without split"; violating runs are classified with
+//!     one without — each with ONE long-lived metadata client and QueryNode —
+//!     with `QueryNode::query` (raw selects, projections, COUNT, SUM, GROUP BY)
+//!     interleaved at every stage: before any split, in Preparation, right after
+//!     entering DualWrite, after dual writes + flush, after the splitter's real
+//!     back-fill of historical chunks (time windows that select only historical
+//!     chunks and their back-fill copies), after further writes.  Every query is
+//!     compared with the model and judged by the oracle "answer == answer of the
+//!     same query on the no-split pipeline"; violating runs are classified with
 //!     the extracted `known_class`.
 use arrow::array::{Array, ArrayRef, AsArray, DictionaryArray, Int64Array, LargeStringArray, RecordBatch, StringArray, StringViewArray, TimestampMicrosecondArray, TimestampNanosecondArray};
 use arrow::datatypes::{DataType, Field, Int32Type, Schema, TimeUnit};
@@ -24,7 +29,7 @@ use cardinalsin::ingester::{Ingester, IngesterConfig};
 use cardinalsin::metadata::{LocalMetadataClient, MetadataClient, ObjectStoreMetadataClient, ObjectStoreMetadataConfig};
 use cardinalsin::query::{QueryConfig, QueryNode};
 use cardinalsin::schema::MetricSchema;
-use cardinalsin::sharding::{ShardKey, SplitPhase};
+use cardinalsin::sharding::{ShardKey, ShardSplitter, SplitPhase};
 use cardinalsin::StorageConfig;
 use csv_common::{catch, ddmin, Args, Model, Report, Rng};
 use object_store::memory::InMemory;
@@ -282,6 +287,8 @@ enum Op {
     C { sid: u32 },
     W { sid: u32, schema: u32, rows: Vec<Row> },
     F,
+    Hh { sid: u32, rows: Vec<Row> }, // register a historical chunk of the old shard
+    B { sid: u32 },                  // ShardSplitter::run_backfill for the planted split
     Q { lo: i64, hi: i64, metric: Option<u64>, post: String },
     X,
 }
@@ -310,6 +317,8 @@ fn encode_op(o: &Op) -> String {
         Op::C { sid } => format!("C {}", sid),
         Op::W { sid, schema, rows } => format!("W {} {} {} {}", sid, schema, ts_kind(*schema), rows.iter().map(show_row).collect::<Vec<_>>().join(";")),
         Op::F => "F".to_string(),
+        Op::Hh { sid, rows } => format!("Hh {} {}", sid, rows.iter().map(show_row).collect::<Vec<_>>().join(";")),
+        Op::B { sid } => format!("B {}", sid),
         Op::Q { lo, hi, metric, post } => format!("Q {} {} {} {}", lo, hi, metric.map(|m| m.to_string()).unwrap_or_else(|| "-".into()), post),
         Op::X => "X".to_string(),
     }
@@ -395,9 +404,31 @@ async fn force_flush(p: &Pipeline) {
     p.ing.run_flush_timer().await;
 }
 
-async fn dump(p: &Pipeline) -> (String, Vec<(Option<u32>, Vec<Row>)>) {
+/// where a chunk lives, from its path: "-" ordinary ingester path, "<n>" under
+/// new shard n (dual-write chunk or back-fill copy), "h<sid>" historical chunk
+fn chunk_label(path: &str, shard_ids: &BTreeMap<u32, String>) -> String {
+    if path.contains("/hist_") {
+        for (sid, name) in shard_ids {
+            if path.contains(name.as_str()) {
+                return format!("h{}", sid);
+            }
+        }
+        return "h?".into();
+    }
+    if let Some(n) = path.split('/').find_map(|seg| seg.strip_prefix("shard=new")) {
+        return n.to_string();
+    }
+    if path.contains("/backfill_") {
+        if let Some(n) = path.split('/').next().and_then(|seg| seg.strip_prefix("new")) {
+            return n.to_string();
+        }
+    }
+    "-".into()
+}
+
+async fn dump(p: &Pipeline, shard_ids: &BTreeMap<u32, String>) -> (String, Vec<(String, Vec<Row>)>) {
     let buf = p.ing.buffer_stats().await.row_count;
-    let mut chunks: Vec<(Option<u32>, Vec<Row>)> = Vec::new();
+    let mut chunks: Vec<(String, Vec<Row>)> = Vec::new();
     let mut listed = p.meta.list_chunks().await.unwrap_or_default();
     listed.sort_by(|a, b| a.chunk_path.cmp(&b.chunk_path));
     for e in listed {
@@ -408,15 +439,37 @@ async fn dump(p: &Pipeline) -> (String, Vec<(Option<u32>, Vec<Row>)>) {
         for b in reader {
             rows.extend(canon_rows(&b.expect("parquet batch")).2);
         }
-        let shard = e.chunk_path.split('/').find_map(|seg| seg.strip_prefix("shard=new")).map(|s| s.parse::<u32>().unwrap_or(0));
-        chunks.push((shard, rows));
+        chunks.push((chunk_label(&e.chunk_path, shard_ids), rows));
     }
     let mut strs: Vec<String> = chunks
         .iter()
-        .map(|(s, rows)| format!("{}>{}", s.map(|x| x.to_string()).unwrap_or_else(|| "-".into()), rows.iter().map(show_row).collect::<Vec<_>>().join(";")))
+        .map(|(s, rows)| format!("{}>{}", s, rows.iter().map(show_row).collect::<Vec<_>>().join(";")))
         .collect();
     strs.sort();
     (format!("buf={}#{}", buf, strs.join("/")), chunks)
+}
+
+/// a chunk that existed before the split: stored under a path that names the
+/// old shard (what get_chunks_for_shard finds) and registered in the catalog
+async fn put_hist_chunk(p: &Pipeline, path: &str, rows: &[Row]) -> Result<(), String> {
+    let batch = ingest_batch(1, rows);
+    let mut buf = Vec::new();
+    {
+        let mut w = parquet::arrow::ArrowWriter::try_new(&mut buf, batch.schema(), None).map_err(|e| e.to_string())?;
+        w.write(&batch).map_err(|e| e.to_string())?;
+        w.close().map_err(|e| e.to_string())?;
+    }
+    let size = buf.len() as u64;
+    p.store.put(&object_store::path::Path::from(path), bytes::Bytes::from(buf).into()).await.map_err(|e| e.to_string())?;
+    let ts: Vec<i64> = rows.iter().map(|r| r.ts.unwrap()).collect();
+    let meta = cardinalsin::ingester::ChunkMetadata {
+        path: path.to_string(),
+        min_timestamp: *ts.iter().min().unwrap(),
+        max_timestamp: *ts.iter().max().unwrap(),
+        row_count: rows.len() as u64,
+        size_bytes: size,
+    };
+    p.meta.register_chunk(path, &meta).await.map_err(|e| e.to_string())
 }
 
 fn sql_of(lo: i64, hi: i64, metric: Option<u64>, post: &str) -> String {
@@ -463,6 +516,8 @@ async fn run_query(p: &mut Pipeline, lo: i64, hi: i64, metric: Option<u64>, post
 struct Expect {
     splits: BTreeMap<u32, (String, Vec<u32>, Vec<u8>)>, // sid -> phase, new shards, point
     new_rows: BTreeMap<u32, Vec<Row>>,
+    hist: BTreeMap<u32, Vec<Vec<Row>>>, // historical chunks per old shard
+    backfilled: HashSet<u32>,
     all_rows: Vec<Row>,
     exact: bool, // false once an op ran whose effect the simple expectation does not describe
 }
@@ -484,6 +539,7 @@ fn run_hcase(rt: &tokio::runtime::Runtime, c: &HCase, ops: &[Op], model_toks: Op
     let mut bad: Vec<(String, String)> = Vec::new();
     let mut queries = 0u64;
     let sid_str = |sid: u32| shard_id_string(*c.shard_metric.get(&sid).unwrap_or(&1), c.base);
+    let shard_ids: BTreeMap<u32, String> = c.shard_metric.keys().map(|s| (*s, sid_str(*s))).collect();
     for (i, op) in ops.iter().enumerate() {
         let tok = match op {
             Op::S { sid, news, point } => {
@@ -553,6 +609,46 @@ fn run_hcase(rt: &tokio::runtime::Runtime, c: &HCase, ops: &[Op], model_toks: Op
                 }
                 t
             }
+            Op::Hh { sid, rows } => {
+                let path = format!("default/data/{}/hist_{}.parquet", sid_str(*sid), i);
+                let r = rt.block_on(put_hist_chunk(&a, &path, rows));
+                if has_q {
+                    let _ = rt.block_on(put_hist_chunk(&b, &path, rows));
+                }
+                exp.all_rows.extend(rows.iter().cloned());
+                exp.hist.entry(*sid).or_default().push(rows.clone());
+                report.bump("R.op.historical_chunk");
+                if r.is_ok() { "ok".to_string() } else { format!("err9 {:?}", r) }
+            }
+            Op::B { sid } => {
+                match exp.splits.get(sid).cloned() {
+                    None => "ok".to_string(), // not generated: nothing to back-fill without a planted split
+                    Some((_, news, point)) => {
+                        let splitter = ShardSplitter::new(a.meta.clone(), a.store.clone());
+                        let names: Vec<String> = news.iter().map(|n| new_shard_name(*n)).collect();
+                        let r = catch(AssertUnwindSafe(|| rt.block_on(splitter.run_backfill(&sid_str(*sid), &names, &point))));
+                        report.bump("R.op.real_backfill");
+                        // independent expectation: every historical chunk of the shard is copied, split at the split point
+                        if !exp.backfilled.insert(*sid) {
+                            exp.exact = false;
+                        }
+                        if point.len() == 8 && news.len() >= 2 {
+                            let sp = i64::from_be_bytes(point.clone().try_into().unwrap());
+                            for chunk in exp.hist.get(sid).cloned().unwrap_or_default() {
+                                let lo: Vec<Row> = chunk.iter().filter(|r| r.ts.unwrap() < sp).cloned().collect();
+                                let up: Vec<Row> = chunk.iter().filter(|r| r.ts.unwrap() >= sp).cloned().collect();
+                                if !lo.is_empty() && !up.is_empty() { report.bump("R.backfill.chunk_on_both_sides"); }
+                                exp.new_rows.entry(news[0]).or_default().extend(lo);
+                                exp.new_rows.entry(news[1]).or_default().extend(up);
+                            }
+                        }
+                        if let Some(s) = exp.splits.get_mut(sid) {
+                            s.0 = "backfill".into();
+                        }
+                        rc(&r)
+                    }
+                }
+            }
             Op::F => {
                 rt.block_on(force_flush(&a));
                 if has_q {
@@ -561,14 +657,14 @@ fn run_hcase(rt: &tokio::runtime::Runtime, c: &HCase, ops: &[Op], model_toks: Op
                 "ok".to_string()
             }
             Op::X => {
-                let (s, chunks) = rt.block_on(dump(&a));
+                let (s, chunks) = rt.block_on(dump(&a, &shard_ids));
                 // oracle: per-shard row multisets
                 let mut got_new: BTreeMap<u32, Vec<Row>> = BTreeMap::new();
                 let mut got_old: Vec<Row> = Vec::new();
                 for (sh, rows) in &chunks {
-                    match sh {
-                        Some(n) => got_new.entry(*n).or_default().extend(rows.iter().cloned()),
-                        None => got_old.extend(rows.iter().cloned()),
+                    match sh.parse::<u32>() {
+                        Ok(n) => got_new.entry(n).or_default().extend(rows.iter().cloned()),
+                        Err(_) => got_old.extend(rows.iter().cloned()),
                     }
                 }
                 let mut shards: Vec<u32> = got_new.keys().chain(exp.new_rows.keys()).cloned().collect();
@@ -601,16 +697,32 @@ fn run_hcase(rt: &tokio::runtime::Runtime, c: &HCase, ops: &[Op], model_toks: Op
                     .unwrap_or_else(|| fallback_class(post, &exp.all_rows, *lo, *hi, *metric));
                 report.bump(&format!("E.query.post.{}", if post.starts_with("raw") { "raw" } else { post }));
                 report.bump(&format!("E.query.class.{}", class));
-                if active {
-                    report.bump("E.query.during_dual_or_backfill");
-                    if sa != sb {
-                        let cname = match class.as_str() {
-                            "aggregate" => "aggregate-inflated",
-                            "projection" => "projection-not-deduplicated",
-                            "identical" => "identical-rows-collapsed",
-                            _ => "",
-                        };
-                        bad.push((cname.into(), format!("op {}: {} during the split returns {{{}}}, without split {{{}}}", i, sql_of(*lo, *hi, *metric, post), clip(&sa), clip(&sb))));
+                report.bump(if active { "E.query.during_dual_or_backfill" } else { "E.query.no_active_split" });
+                if !exp.splits.is_empty() && !active { report.bump("E.query.in_preparation"); }
+                if sa != sb {
+                    // a known class explains a deviation only while a split is active, and only
+                    // in its own direction: identical rows collapse = fewer rows than without
+                    // split, an undeduplicated projection = more rows
+                    let na = if sa.is_empty() { 0 } else { sa.split(';').count() };
+                    let nb = if sb.is_empty() { 0 } else { sb.split(';').count() };
+                    let errored = sa.starts_with("ERR") || sa.starts_with("PANIC") || sb.starts_with("ERR") || sb.starts_with("PANIC");
+                    let cname = match class.as_str() {
+                        _ if !active || errored => "",
+                        "aggregate" => "aggregate-inflated",
+                        "projection" if na > nb => "projection-not-deduplicated",
+                        "identical" if na < nb => "identical-rows-collapsed",
+                        _ => "",
+                    };
+                    let what = format!("op {}: {} during the split returns {{{}}}, without split {{{}}}", i, sql_of(*lo, *hi, *metric, post), clip(&sa), clip(&sb));
+                    if cname.is_empty() {
+                        bad.push((String::new(), what));
+                    } else {
+                        // known classes: count all, record a few (the report keeps 50 entries)
+                        report.bump(&format!("E.known_class_violation.{}", cname));
+                        let seen = *report.histogram.get(&format!("E.known_class_violation.{}", cname)).unwrap_or(&0);
+                        if seen <= 3 {
+                            bad.push((cname.into(), what));
+                        }
                     }
                 }
                 format!("{}#{}#{}#{}", sa, class, sb, active as u8)
@@ -623,14 +735,26 @@ fn run_hcase(rt: &tokio::runtime::Runtime, c: &HCase, ops: &[Op], model_toks: Op
 
 /// every query comes after a write that was flushed (otherwise `metrics` is the
 /// empty default table, whose schema the generated SQL does not fit)
+/// and every back-fill runs once per shard, on a planted split with two new
+/// shards and an 8-byte split point
 fn well_formed(ops: &[Op]) -> bool {
     let mut written = false;
     let mut flushed = false;
+    let mut valid: BTreeMap<u32, bool> = BTreeMap::new();
+    let mut backfilled: HashSet<u32> = HashSet::new();
     for o in ops {
         match o {
             Op::W { .. } => written = true,
+            Op::Hh { .. } => { written = true; flushed = true; }
             Op::F => flushed = written,
             Op::Q { .. } if !flushed => return false,
+            Op::S { sid, news, point } => { valid.insert(*sid, news.len() == 2 && point.len() == 8); }
+            Op::C { sid } => { valid.remove(sid); }
+            Op::B { sid } => {
+                if valid.get(sid) != Some(&true) || !backfilled.insert(*sid) {
+                    return false;
+                }
+            }
             _ => {}
         }
     }
@@ -723,7 +847,118 @@ fn distinct_shard_metrics(base: i64) -> Vec<u64> {
     out
 }
 
+const HIST_OFFSET: i64 = 1_000_000; // historical rows lie this far below the live ones
+
+/// End-to-end scenario: one long-lived QueryNode / metadata client per pipeline,
+/// queries at every stage of a split that only ever moves forward
+/// (no split -> Preparation -> DualWrite -> Backfill), optionally with
+/// historical chunks that the real splitter back-fills.
+fn gen_ecase(rng: &mut Rng, report: &mut Report) -> HCase {
+    let base: i64 = 1_700_000_000_000_000_000;
+    let hist_base = base - HIST_OFFSET;
+    report.bump("E.base.realistic");
+    let metrics = distinct_shard_metrics(base);
+    let nsh = rng.range_usize(1, metrics.len().min(2));
+    let shard_metric: BTreeMap<u32, u64> = (0..nsh).map(|i| (i as u32 + 1, metrics[i])).collect();
+    let flush_rows = rng.range_usize(1, 9);
+    let with_hist = rng.chance(3, 5);
+    if with_hist { report.bump("E.scenario.with_historical_chunks"); }
+    let mut ops: Vec<Op> = Vec::new();
+    let mut pool: Vec<Row> = Vec::new();
+    let mut hpool: Vec<Row> = Vec::new();
+    let main = 1u32;
+    let other = if nsh == 2 { Some(2u32) } else { None };
+    let mut next_new = 10u32;
+    let pick_sid = |rng: &mut Rng| if let Some(o) = other { if rng.chance(1, 3) { o } else { main } } else { main };
+
+    // queries: live window, historical window, or both
+    let queries = |rng: &mut Rng, ops: &mut Vec<Op>, n: usize, hist_bias: bool| {
+        for _ in 0..n {
+            let q = if with_hist && (hist_bias && rng.chance(2, 3) || rng.chance(1, 4)) {
+                if rng.chance(1, 4) {
+                    let mut q = gen_query(rng, base);
+                    if let Op::Q { lo, .. } = &mut q { *lo = hist_base - 10; }
+                    q
+                } else {
+                    gen_query(rng, hist_base)
+                }
+            } else {
+                gen_query(rng, base)
+            };
+            ops.push(q);
+        }
+    };
+    let writes = |rng: &mut Rng, ops: &mut Vec<Op>, pool: &mut Vec<Row>, report: &mut Report, n: usize| {
+        for _ in 0..n {
+            let sid = pick_sid(rng);
+            let k = rng.range_usize(1, 5);
+            let rows = gen_rows(rng, base, shard_metric[&sid], k, false, report, pool);
+            ops.push(Op::W { sid, schema: 1, rows });
+        }
+        ops.push(Op::F);
+    };
+
+    // stage 0: data that existed before the split
+    if with_hist {
+        for _ in 0..rng.range_usize(1, 3) {
+            let k = rng.range_usize(1, 5);
+            let rows = gen_rows(rng, hist_base, shard_metric[&main], k, false, report, &mut hpool);
+            ops.push(Op::Hh { sid: main, rows });
+        }
+    }
+    // stage 1: no split anywhere
+    let n = rng.range_usize(1, 2);
+    writes(rng, &mut ops, &mut pool, report, n);
+    let n = rng.range_usize(1, 2);
+    queries(rng, &mut ops, n, false);
+    // stage 2: Preparation
+    let sp = if with_hist && rng.chance(1, 2) { hist_base + rng.range_i64(-2, 3) } else { base + rng.range_i64(-3, 4) };
+    next_new += 2;
+    ops.push(Op::S { sid: main, news: vec![next_new - 1, next_new], point: be(sp) });
+    queries(rng, &mut ops, 1, false);
+    if rng.chance(1, 2) {
+        writes(rng, &mut ops, &mut pool, report, 1);
+        queries(rng, &mut ops, 1, false);
+    }
+    // stage 3: DualWrite
+    ops.push(Op::P { sid: main, phase: "dual" });
+    queries(rng, &mut ops, 1, false);
+    if let Some(o) = other {
+        if rng.chance(1, 2) {
+            next_new += 2;
+            ops.push(Op::S { sid: o, news: vec![next_new - 1, next_new], point: be(base + rng.range_i64(-2, 3)) });
+            if rng.chance(2, 3) {
+                ops.push(Op::P { sid: o, phase: if rng.chance(1, 2) { "dual" } else { "backfill" } });
+            }
+        }
+    }
+    let n = rng.range_usize(1, 2);
+    writes(rng, &mut ops, &mut pool, report, n);
+    let n = rng.range_usize(2, 3);
+    queries(rng, &mut ops, n, false);
+    // stage 4: Backfill — the splitter's real back-fill when there is something to copy
+    match rng.below(10) {
+        0..=6 => {
+            if with_hist || rng.chance(1, 2) { ops.push(Op::B { sid: main }); } else { ops.push(Op::P { sid: main, phase: "backfill" }); }
+            let n = rng.range_usize(2, 3);
+            queries(rng, &mut ops, n, true);
+            if rng.chance(2, 3) {
+                writes(rng, &mut ops, &mut pool, report, 1);
+                let n = rng.range_usize(1, 2);
+                queries(rng, &mut ops, n, true);
+            }
+        }
+        _ => {}
+    }
+    ops.push(Op::F);
+    ops.push(Op::X);
+    HCase { flush_rows, object_store_backend: rng.chance(1, 2), base, shard_metric, ops }
+}
+
 fn gen_hcase(rng: &mut Rng, e2e: bool, report: &mut Report) -> HCase {
+    if e2e {
+        return gen_ecase(rng, report);
+    }
     let base: i64 = if e2e {
         1_700_000_000_000_000_000
     } else {
@@ -746,8 +981,20 @@ fn gen_hcase(rng: &mut Rng, e2e: bool, report: &mut Report) -> HCase {
     let mut next_new = 1u32;
     let nops = rng.range_usize(4, 14);
     let mut started: Vec<u32> = Vec::new();
+    let mut valid_split: BTreeMap<u32, bool> = BTreeMap::new();
+    let mut backfilled: HashSet<u32> = HashSet::new();
+    let with_hist = !noflush && rng.chance(1, 3);
     for _ in 0..nops {
         let sid = 1 + rng.below(nsh as u64) as u32;
+        if with_hist && rng.chance(1, 6) {
+            let n = rng.range_usize(1, 4);
+            let rows = gen_rows(rng, base, shard_metric[&sid], n, false, report, &mut pool);
+            ops.push(Op::Hh { sid, rows });
+        }
+        if with_hist && valid_split.get(&sid) == Some(&true) && !backfilled.contains(&sid) && rng.chance(1, 4) {
+            backfilled.insert(sid);
+            ops.push(Op::B { sid });
+        }
         let r = rng.below(100);
         if r < 14 || (started.is_empty() && r < 40) {
             let nn = if e2e || rng.chance(9, 10) { 2 } else { *rng.pick(&[0usize, 1, 3]) };
@@ -761,6 +1008,7 @@ fn gen_hcase(rng: &mut Rng, e2e: bool, report: &mut Report) -> HCase {
                 if rng.chance(1, 2) { p.truncate(4); } else { p.push(0); }
                 p
             };
+            valid_split.insert(sid, news.len() == 2 && point.len() == 8);
             ops.push(Op::S { sid, news, point });
             if !started.contains(&sid) { started.push(sid); }
             // usually move straight into a dual-write phase
@@ -772,6 +1020,7 @@ fn gen_hcase(rng: &mut Rng, e2e: bool, report: &mut Report) -> HCase {
             ops.push(Op::P { sid, phase });
         } else if r < 31 {
             ops.push(Op::C { sid });
+            valid_split.remove(&sid);
             started.retain(|s| *s != sid);
         } else if r < 86 {
             let schema = if e2e { 1 } else if noflush { noflush_schema } else { *rng.pick(&[1u32, 1, 1, 1, 2, 3]) };
@@ -852,6 +1101,41 @@ fn corpus() -> Vec<HCase> {
                 Op::S { sid: 1, news: vec![11, 12], point: be(base + 1) }, Op::P { sid: 1, phase },
                 Op::W { sid: 1, schema: 1, rows: vec![rw(0, 1, 10), rw(0, 2, 20), rw(1, 1, 30), rw(2, 1, 40)] },
                 Op::F, q("raw111"), q("count"), q("sum1"), q("cbk"), q("cbm"), q("raw101"), q("raw110"), Op::X,
+            ],
+        });
+    }
+    // one long-lived client: a query before the split, then DualWrite, dual writes, and the
+    // same query again right away (a stale "no active split" answer would leave the copies in)
+    for backend in [true, false] {
+        cases.push(HCase {
+            flush_rows: 1, object_store_backend: backend, base, shard_metric: sm.clone(),
+            ops: vec![
+                Op::W { sid: 1, schema: 1, rows: vec![rw(0, 1, 10), rw(1, 1, 20)] }, Op::F, q("raw111"), q("count"),
+                Op::S { sid: 1, news: vec![11, 12], point: be(base + 1) }, q("raw111"),
+                Op::P { sid: 1, phase: "dual" }, q("raw111"),
+                Op::W { sid: 1, schema: 1, rows: vec![rw(0, 2, 30), rw(1, 2, 40), rw(2, 2, 50)] }, Op::F, q("raw111"), q("raw110"),
+                Op::P { sid: 1, phase: "backfill" }, q("raw111"),
+                Op::W { sid: 1, schema: 1, rows: vec![rw(3, 3, 60)] }, Op::F, q("raw111"), Op::X,
+            ],
+        });
+    }
+    // historical chunks + the splitter's real back-fill; time windows that select only the
+    // historical chunks and their back-fill copies (no dual-write chunk among them)
+    for backend in [false, true] {
+        let h = |t: i64, host: i128, v: i128| Row { ts: Some(base - HIST_OFFSET + t), metric: Some(m), rest: vec![host, v] };
+        let hq = |post: &str| Op::Q { lo: base - HIST_OFFSET - 10, hi: base - HIST_OFFSET + 10, metric: None, post: post.to_string() };
+        cases.push(HCase {
+            flush_rows: 2, object_store_backend: backend, base, shard_metric: sm.clone(),
+            ops: vec![
+                Op::Hh { sid: 1, rows: vec![h(0, 1, 1), h(1, 1, 2), h(2, 2, 3)] },
+                Op::Hh { sid: 1, rows: vec![h(1, 2, 4), h(3, 1, 5)] },
+                Op::W { sid: 1, schema: 1, rows: vec![rw(0, 1, 10)] }, Op::F, hq("raw111"), q("raw111"),
+                Op::S { sid: 1, news: vec![11, 12], point: be(base - HIST_OFFSET + 1) },
+                Op::P { sid: 1, phase: "dual" }, hq("raw111"),
+                Op::W { sid: 1, schema: 1, rows: vec![rw(1, 1, 20), rw(2, 2, 30)] }, Op::F,
+                Op::B { sid: 1 }, hq("raw111"), hq("raw110"), hq("count"), q("raw111"),
+                Op::Q { lo: base - HIST_OFFSET - 10, hi: base + 10, metric: None, post: "raw111".into() },
+                Op::X,
             ],
         });
     }
